@@ -36,8 +36,17 @@ def run(eng, tier):
             if a[0] == 'c': ns_consts[name] = (t[1].split('::')[1], a[1])
     by_ns = collections.defaultdict(set)
     for name, (kind, ns) in ns_consts.items(): by_ns[ns].add(kind)
+    # handles constructed locally (`Item::new("version_info")` inside a function) bind a namespace as well: what is read or written under it
+    unbound = [ns for ns in ('ask', 'bid', 'contract_info', 'version_info') if ns not in by_ns]
+    if unbound:
+        keyed = collections.defaultdict(set)
+        for root in eng.s['roots']:
+            for ex in eng.s['roots'][root]['exits']:
+                for ef in ex.get('effects', ()):
+                    if ef[0] in ('read', 'save', 'remove') and isinstance(ef[1], str) and ef[1] in unbound: keyed[ef[1]].add(ef[2] is not None)
+        for ns, ks in keyed.items(): by_ns[ns].add('Map' if True in ks else 'Item')
     for ns in ('ask', 'bid', 'contract_info', 'version_info'):
-        eng.ob(ns in by_ns, PROP, 'namespace', ns, 'storage namespace "%s" is not bound by any storage constant (fail closed)' % ns)
+        eng.ob(ns in by_ns, PROP, 'namespace', ns, 'storage namespace "%s" is not bound by any storage constant or used by any storage access (fail closed)' % ns)
     eng.ob(all(len(k) == 1 for k in by_ns.values()), PROP, 'namespace', 'kind', 'a namespace is used both as Map and as Item: %s' % dict(by_ns))
     eng.ob(by_ns.get('ask') == {'Map'} and by_ns.get('bid') == {'Map'}, PROP, 'namespace', 'maps', 'order books must be Maps on distinct namespaces "ask" / "bid"')
     for v, allowed in MAY_WRITE.items():
